@@ -53,6 +53,13 @@ def config_space(kind, max_t):
     return cs
 
 
+def restrict_list(cs, n, seed):
+    """n configurations of the space, drawn with a generator of their own"""
+    from syne_tune.optimizer.schedulers.searchers.random_grid_searcher import RandomSearcher
+    s0 = RandomSearcher(dict(cs), metric=METRIC, points_to_evaluate=[], random_seed=seed, allow_duplicates=True)
+    return [s0.get_config(trial_id=str(i)) for i in range(n)]
+
+
 def make_scheduler(name, mode, seed, cs_kind="mixed", max_t=27, extra=None):
     """mode: 'min'|'max' (or list for moasha)"""
     extra = dict(extra or {})
@@ -79,12 +86,24 @@ def make_scheduler(name, mode, seed, cs_kind="mixed", max_t=27, extra=None):
                                             sample_size=extra.get("sample_size", 3), points_to_evaluate=[], **skw)
             return FIFOScheduler(cs, searcher=searcher, metric=METRIC, mode=mode, random_seed=seed)
         so = {"debug_log": False}
+        kw = {}
         if s == "random-rc":
             # random search restricted to a list of configurations; `extra["restrict"]` is the caller's list object
-            # (twins "created with the same arguments" receive the very same list)
+            # (twins "created with the same arguments" receive the very same list); a fresh process builds the list itself
             s = "random"
-            so["restrict_configurations"] = extra["restrict"]
-        return FIFOScheduler(cs, searcher=s, metric=METRIC, mode=mode, random_seed=seed, search_options=so)
+            rc = extra["restrict"] if "restrict" in extra else restrict_list(cs, extra["restrict_n"], extra["restrict_seed"])
+            so["restrict_configurations"] = rc
+            if extra.get("p2e_from_restrict"):
+                # some of the allowed configurations are initial configurations as well
+                kw["points_to_evaluate"] = [dict(c) for c in rc[1:1 + extra["p2e_from_restrict"]]]
+        if "p2e" in extra:
+            kw["points_to_evaluate"] = extra["p2e"]   # the caller's list object
+        if extra.get("searcher_object"):
+            # a searcher object built without a seed of its own: the scheduler's seed is the only one given
+            from syne_tune.optimizer.schedulers.searchers.random_grid_searcher import RandomSearcher
+            s = RandomSearcher(cs, metric=METRIC, points_to_evaluate=[])
+            so = None
+        return FIFOScheduler(cs, searcher=s, metric=METRIC, mode=mode, random_seed=seed, search_options=so, **kw)
     if name == "hb-dyhpo":
         from syne_tune.optimizer.schedulers.hyperband import HyperbandScheduler
         return HyperbandScheduler(cs, searcher="dyhpo", type="dyhpo", metric=METRIC, mode=mode, resource_attr=RES,
@@ -100,6 +119,12 @@ def make_scheduler(name, mode, seed, cs_kind="mixed", max_t=27, extra=None):
                   brackets=extra.get("brackets", 1), random_seed=seed, search_options={"debug_log": False})
         if typ == "cost_promotion":
             kw["cost_attr"] = "cost"
+        if "p2e" in extra:
+            kw["points_to_evaluate"] = extra["p2e"]   # the caller's list object
+        if extra.get("searcher_object"):
+            from syne_tune.optimizer.schedulers.searchers.random_grid_searcher import RandomSearcher
+            kw["searcher"] = RandomSearcher(cs, metric=METRIC, points_to_evaluate=[])
+            kw.pop("search_options")
         if typ.startswith("rush") and not extra.get("default_rung_system_kwargs"):
             # (`default_rung_system_kwargs`: the argument is left to its default, a module-level dict of the library)
             kw["rung_system_kwargs"] = {"num_threshold_candidates": extra.get("num_threshold_candidates", 2)}
